@@ -193,7 +193,7 @@ Record good (sp : spec) (sv : server) (name : N) (skip : bool) (v suite : N) (s 
   g_tvers : t_vers (s_ticket s) = v;
   g_tsuite : t_suite (s_ticket s) = s_suite s;
   g_tems : t_ems (s_ticket s) = s_ems s;
-  g_ver : skip = false -> s_verified s = true /\ mem name (s_certnames s) = true;
+  g_ver : skip = false -> s_verified s = true /\ name_ok name (s_certnames s) = true;
   g_12 : v <> V13 -> mem (s_suite s) (sp_suites sp) = true /\ mem (s_suite s) (sv_suites sv) = true /\ s_ems s = has_ems sp;
   g_13 : v = V13 -> hash_len (s_suite s) = hash_len suite /\ hash_len suite <> 0;
   g_ok : s_bad s = false
@@ -206,19 +206,19 @@ Lemma mem_In x l : mem x l = true <-> In x l.
 Proof. unfold mem. rewrite existsb_exists. split; [intros [y [Hy E]]; apply N.eqb_eq in E; subst; exact Hy|intros H; exists x; split; [exact H|apply N.eqb_refl]]. Qed.
 
 Lemma ver_cond skip (s : session) name :
-  (skip = false -> s_verified s = true /\ mem name (s_certnames s) = true) ->
-  negb skip && (negb (s_verified s) || negb (mem name (s_certnames s))) = false.
+  (skip = false -> s_verified s = true /\ name_ok name (s_certnames s) = true) ->
+  negb skip && (negb (s_verified s) || negb (name_ok name (s_certnames s))) = false.
 Proof. destruct skip; [reflexivity|]. intros H. destruct (H eq_refl) as [-> ->]. reflexivity. Qed.
 
-Lemma load13 sp sv sn ad skip suite s ca now omit tlen e :
-  good sp sv (c_name (mkConn sp sn ad sv now omit skip suite tlen)) skip V13 suite s -> lookup (c_name (mkConn sp sn ad sv now omit skip suite tlen)) ca = Some s ->
+Lemma load13 sp sv sn ad skip suite s ca now omit tlen vnm st e :
+  good sp sv (c_vn (mkConn sp sn ad sv now omit skip suite tlen vnm st)) skip V13 suite s -> lookup (c_name (mkConn sp sn ad sv now omit skip suite tlen vnm st)) ca = Some s ->
   mem V13 (sp_vers sp) = true -> mem suite (sp_suites sp) = true ->
   now <= s_notafter s -> now <= s_useby s ->
-  load_session ca (mkConn sp sn ad sv now omit skip suite tlen) e = mkLoaded ca (Some (ViaPsk, s)).
+  load_session ca (mkConn sp sn ad sv now omit skip suite tlen vnm st) e = mkLoaded ca (Some (ViaPsk, s)).
 Proof.
   intros G L Mv Ms T1 T2. destruct G as [gv gk gtv gts gte gver g12 g13 gbad]. destruct (g13 eq_refl) as [Hh Hn].
-  unfold load_session. rewrite L. cbn [c_spec c_now c_skipverify]. rewrite gv, Mv. cbn [negb].
-  replace (s_notafter s <? now) with false by (symmetry; apply N.ltb_ge; exact T1).
+  unfold load_session. rewrite L. cbn [c_spec c_now c_skipverify c_skiptime]. rewrite gv, Mv. cbn [negb].
+  replace (s_notafter s <? now) with false by (symmetry; apply N.ltb_ge; exact T1). rewrite andb_false_r.
   rewrite (ver_cond _ _ _ gver). rewrite N.eqb_refl. cbn [negb].
   replace (s_useby s <? now) with false by (symmetry; apply N.ltb_ge; exact T2).
   rewrite Hh. replace (hash_len suite =? 0) with false by (symmetry; apply N.eqb_neq; exact Hn).
@@ -228,9 +228,9 @@ Proof.
   rewrite X. reflexivity.
 Qed.
 
-Lemma good_resumes13 sp sv sn ad skip suite s ca now omit tlen :
-  let c2 := mkConn sp sn ad sv now omit skip suite tlen in
-  good sp sv (c_name c2) skip V13 suite s ->
+Lemma good_resumes13 sp sv sn ad skip suite s ca now omit tlen vnm st :
+  let c2 := mkConn sp sn ad sv now omit skip suite tlen vnm st in
+  good sp sv (c_vn c2) skip V13 suite s ->
   lookup (c_name c2) ca = Some s ->
   negotiate sv sp = Some V13 ->
   has_psk sp = true -> has_modes sp = true ->
@@ -246,11 +246,11 @@ Proof.
   assert (B : build ca c2 = BOk ca (Some (ViaPsk, s)) true).
   { unfold build, c2. cbn [c_spec c_omit].
     destruct (sp_go sp) eqn:Go.
-    - rewrite (load13 sp sv sn ad skip suite s ca now omit tlen true G L Mv Ms T1 T2). reflexivity.
+    - rewrite (load13 sp sv sn ad skip suite s ca now omit tlen vnm st true G L Mv Ms T1 T2). reflexivity.
     - destruct (Wf eq_refl) as [W1 W2]. unfold has_psk in Hp. rewrite Go in Hp. cbn [orb] in Hp.
       replace (1 <? count_ticket (sp_exts sp))%nat with false by (symmetry; apply Nat.ltb_ge; exact W2).
       rewrite W1, Hp. cbn [negb andb]. rewrite andb_false_r.
-      rewrite (load13 sp sv sn ad skip suite s ca now omit tlen _ G L Mv Ms T1 T2). cbn [l_sess l_cache].
+      rewrite (load13 sp sv sn ad skip suite s ca now omit tlen vnm st _ G L Mv Ms T1 T2). cbn [l_sess l_cache].
       rewrite (g_vers _ _ _ _ _ _ _ G). cbn. reflexivity. }
   destruct G as [gv gk gtv gts gte gver g12 g13 gbad]. destruct (g13 eq_refl) as [Hh Hn].
   subst c2. unfold step. rewrite B. cbn [c_spec c_srv c_suite c_now]. rewrite Ng. rewrite N.eqb_refl.
@@ -264,21 +264,21 @@ Proof.
   cbn. rewrite gbad. cbn. split; reflexivity.
 Qed.
 
-Lemma load12 sp sv sn ad skip suite s ca now omit tlen :
-  good sp sv (c_name (mkConn sp sn ad sv now omit skip suite tlen)) skip V12 suite s -> lookup (c_name (mkConn sp sn ad sv now omit skip suite tlen)) ca = Some s ->
+Lemma load12 sp sv sn ad skip suite s ca now omit tlen vnm st :
+  good sp sv (c_vn (mkConn sp sn ad sv now omit skip suite tlen vnm st)) skip V12 suite s -> lookup (c_name (mkConn sp sn ad sv now omit skip suite tlen vnm st)) ca = Some s ->
   mem V12 (sp_vers sp) = true -> now <= s_notafter s ->
-  load_session ca (mkConn sp sn ad sv now omit skip suite tlen) (has_ems sp) = mkLoaded ca (Some (ViaTicket, s)).
+  load_session ca (mkConn sp sn ad sv now omit skip suite tlen vnm st) (has_ems sp) = mkLoaded ca (Some (ViaTicket, s)).
 Proof.
   intros G L Mv T1. destruct G as [gv gk gtv gts gte gver g12 g13 gbad].
   destruct g12 as [M1 [M2 E]]; [discriminate|].
-  unfold load_session. rewrite L. cbn [c_spec c_now c_skipverify]. rewrite gv, Mv. cbn [negb].
-  replace (s_notafter s <? now) with false by (symmetry; apply N.ltb_ge; exact T1).
+  unfold load_session. rewrite L. cbn [c_spec c_now c_skipverify c_skiptime]. rewrite gv, Mv. cbn [negb].
+  replace (s_notafter s <? now) with false by (symmetry; apply N.ltb_ge; exact T1). rewrite andb_false_r.
   rewrite (ver_cond _ _ _ gver). cbn. rewrite M1, E. cbn [negb]. rewrite andb_negb_r. reflexivity.
 Qed.
 
-Lemma good_resumes12 sp sv sn ad skip suite s ca now omit tlen :
-  let c2 := mkConn sp sn ad sv now omit skip suite tlen in
-  good sp sv (c_name c2) skip V12 suite s ->
+Lemma good_resumes12 sp sv sn ad skip suite s ca now omit tlen vnm st :
+  let c2 := mkConn sp sn ad sv now omit skip suite tlen vnm st in
+  good sp sv (c_vn c2) skip V12 suite s ->
   lookup (c_name c2) ca = Some s ->
   negotiate sv sp = Some V12 ->
   has_ticket sp = true ->
@@ -289,7 +289,7 @@ Lemma good_resumes12 sp sv sn ad skip suite s ca now omit tlen :
 Proof.
   intros c2 G L Ng Ht Wf T1 T3.
   pose proof (negotiate_mem _ _ _ Ng) as Mv.
-  pose proof (load12 sp sv sn ad skip suite s ca now omit tlen G L Mv T1) as LD.
+  pose proof (load12 sp sv sn ad skip suite s ca now omit tlen vnm st G L Mv T1) as LD.
   assert (B : exists p, build ca c2 = BOk ca (Some (ViaTicket, s)) p).
   { unfold build, c2. cbn [c_spec c_omit].
     destruct (sp_go sp) eqn:Go.
@@ -310,10 +310,10 @@ Proof.
 Qed.
 
 Lemma load_checks ca c e k s : l_sess (load_session ca c e) = Some (k, s) ->
-  (c_skipverify c = false -> s_verified s = true /\ mem (c_name c) (s_certnames s) = true).
+  (c_skipverify c = false -> s_verified s = true /\ name_ok (c_vn c) (s_certnames s) = true).
 Proof.
   unfold load_session. destruct (lookup (c_name c) ca) as [s0|]; [|discriminate].
-  destruct (negb (c_skipverify c) && (negb (s_verified s0) || negb (mem (c_name c) (s_certnames s0)))) eqn:V.
+  destruct (negb (c_skipverify c) && (negb (s_verified s0) || negb (name_ok (c_vn c) (s_certnames s0)))) eqn:V.
   - repeat match goal with |- context [if ?b then _ else _] => destruct b end; cbn [l_sess]; discriminate.
   - repeat match goal with |- context [if ?b then _ else _] => destruct b end; cbn [l_sess]; try discriminate;
     intros H; inversion H; subst; intros Sk; rewrite Sk in V; cbn in V; apply orb_false_elim in V; destruct V as [V1 V2];
@@ -321,7 +321,7 @@ Proof.
 Qed.
 
 Lemma build_offer_checks ca c ca' k s p : build ca c = BOk ca' (Some (k, s)) p ->
-  (c_skipverify c = false -> s_verified s = true /\ mem (c_name c) (s_certnames s) = true).
+  (c_skipverify c = false -> s_verified s = true /\ name_ok (c_vn c) (s_certnames s) = true).
 Proof.
   unfold build. destruct (sp_go (c_spec c)) eqn:G.
   - intros H. inversion H; subst. clear H. eapply load_checks; eassumption.
@@ -348,7 +348,7 @@ Lemma step_stores_good ca c v :
   (v = V13 -> has_modes (c_spec c) = true) ->
   (v <> V13 -> has_ticket (c_spec c) = true) ->
   exists s, lookup (c_name c) (fst (step ca c)) = Some s /\
-            good (c_spec c) (c_srv c) (c_name c) (c_skipverify c) v (c_suite c) s /\
+            good (c_spec c) (c_srv c) (c_vn c) (c_skipverify c) v (c_suite c) s /\
             (resumed (snd (step ca c)) = false ->
                s_useby s = c_now c + LIFETIME /\ t_created (s_ticket s) = c_now c /\ s_notafter s = sv_notafter (c_srv c)).
 Proof.
@@ -400,7 +400,8 @@ Definition can_resume (sp : spec) (sv : server) (v : N) : Prop :=
 
 Definition same_config (c1 c2 : conn) : Prop :=
   c_spec c2 = c_spec c1 /\ c_name c2 = c_name c1 /\ c_srv c2 = c_srv c1 /\
-  c_skipverify c2 = c_skipverify c1 /\ c_suite c2 = c_suite c1.
+  c_skipverify c2 = c_skipverify c1 /\ c_suite c2 = c_suite c1 /\
+  c_vn c2 = c_vn c1 /\ c_skiptime c2 = c_skiptime c1.
 
 Definition hrr_ok (c : conn) : Prop := sp_go (c_spec c) = true \/ needs_hrr (c_srv c) (c_spec c) = false.
 
@@ -426,15 +427,15 @@ Proof.
   { intros N. destruct Cr as [[_ T]|[E _]]; [exact T|congruence]. }
   destruct (step_stores_good ca c1 v Hc Ng Hm Ht) as [s [L [G _]]].
   exists s. split; [exact L|]. intros [T1 [T2 T3]].
-  destruct c2 as [sp2 sn2 ad2 sv2 now2 om2 sk2 su2 tl2]. destruct Sc as [E1 [E2 [E3 [E4 E5]]]].
+  destruct c2 as [sp2 sn2 ad2 sv2 now2 om2 sk2 su2 tl2 vm2 st2]. destruct Sc as [E1 [E2 [E3 [E4 [E5 [E6 E7]]]]]].
   cbn [c_spec c_srv c_skipverify c_suite c_now c_omit] in E1, E3, E4, E5, Wf, Hr, T1, T2, T3. subst sp2 sv2 sk2 su2.
-  rewrite <- E2 in G, L.
+  rewrite <- E2 in L. rewrite <- E6 in G.
   destruct Cr as [[-> T]|[-> [P [M Sg]]]].
-  - destruct (good_resumes12 _ _ sn2 ad2 _ _ _ _ now2 om2 tl2 G L Ng T Wf T1 T3) as [R O]. split; [exact R|eexists; exact O].
+  - destruct (good_resumes12 _ _ sn2 ad2 _ _ _ _ now2 om2 tl2 vm2 st2 G L Ng T Wf T1 T3) as [R O]. split; [exact R|eexists; exact O].
   - assert (W : sp_go (c_spec c1) = false -> psk_positions_ok (sp_exts (c_spec c1)) = true /\ (count_ticket (sp_exts (c_spec c1)) <= 1)%nat).
     { intros g. destruct (Wf g) as [A [B _]]. auto. }
     assert (Hr' : sp_go (c_spec c1) = true \/ needs_hrr (c_srv c1) (c_spec c1) = false) by exact (Hr eq_refl).
-    destruct (good_resumes13 _ _ sn2 ad2 _ _ _ _ now2 om2 tl2 G L Ng P M W Sg Hr' Ms T1 T2 T3) as [R O].
+    destruct (good_resumes13 _ _ sn2 ad2 _ _ _ _ now2 om2 tl2 vm2 st2 G L Ng P M W Sg Hr' Ms T1 T2 T3) as [R O].
     split; [exact R|eexists; exact O].
 Qed.
 
@@ -669,7 +670,7 @@ Qed.
 
 Definition chain_inv (c1 : conn) (v B : N) (ca : cache) : Prop :=
   exists s, lookup (c_name c1) ca = Some s /\
-    good (c_spec c1) (c_srv c1) (c_name c1) (c_skipverify c1) v (c_suite c1) s /\ unexpired s B.
+    good (c_spec c1) (c_srv c1) (c_vn c1) (c_skipverify c1) v (c_suite c1) s /\ unexpired s B.
 
 (* c continues the history started by c1: same configuration, its clock within the window ending at B *)
 Definition follows (c1 : conn) (v B : N) (c : conn) : Prop :=
@@ -699,21 +700,21 @@ Proof.
   assert (Ht : v <> V13 -> has_ticket (c_spec c1) = true).
   { intros N. destruct Cr as [[_ T]|[E _]]; [exact T|congruence]. }
   assert (R : resumed (snd (step ca c)) = true /\ exists k, o_offer (snd (step ca c)) = Some (k, s)).
-  { destruct c as [sp2 sn2 ad2 sv2 now2 om2 sk2 su2 tl2]. destruct Sc as [E1 [E2 [E3 [E4 E5]]]].
+  { destruct c as [sp2 sn2 ad2 sv2 now2 om2 sk2 su2 tl2 vm2 st2]. destruct Sc as [E1 [E2 [E3 [E4 [E5 [E6 E7]]]]]].
     cbn [c_spec c_srv c_skipverify c_suite c_now c_omit] in E1, E3, E4, E5, Wf, Hr, T1, T2. subst sp2 sv2 sk2 su2.
-    rewrite <- E2 in G, L.
+    rewrite <- E2 in L. rewrite <- E6 in G.
     assert (A1 : now2 <= s_notafter s) by exact (N.le_trans _ _ _ T1 U1).
     assert (A2 : now2 <= s_useby s) by exact (N.le_trans _ _ _ T1 U2).
     assert (A3 : now2 <= t_created (s_ticket s) + LIFETIME) by exact (N.le_trans _ _ _ T1 U3).
     destruct Cr as [[-> T]|[-> [P [M Sg]]]].
-    - destruct (good_resumes12 _ _ sn2 ad2 _ _ _ _ now2 om2 tl2 G L Ng T Wf A1 A3) as [R O]. split; [exact R|eexists; exact O].
+    - destruct (good_resumes12 _ _ sn2 ad2 _ _ _ _ now2 om2 tl2 vm2 st2 G L Ng T Wf A1 A3) as [R O]. split; [exact R|eexists; exact O].
     - assert (W : sp_go (c_spec c1) = false -> psk_positions_ok (sp_exts (c_spec c1)) = true /\ (count_ticket (sp_exts (c_spec c1)) <= 1)%nat).
       { intros g. destruct (Wf g) as [A [B0 _]]. auto. }
       assert (Hr' : sp_go (c_spec c1) = true \/ needs_hrr (c_srv c1) (c_spec c1) = false) by exact (Hr eq_refl).
-      destruct (good_resumes13 _ _ sn2 ad2 _ _ _ _ now2 om2 tl2 G L Ng P M W Sg Hr' Ms A1 A2 A3) as [R O].
+      destruct (good_resumes13 _ _ sn2 ad2 _ _ _ _ now2 om2 tl2 vm2 st2 G L Ng P M W Sg Hr' Ms A1 A2 A3) as [R O].
       split; [exact R|eexists; exact O]. }
   destruct R as [R [k O]]. split; [exact R|]. split; [exists k, s; auto|].
-  destruct Sc as [E1 [E2 [E3 [E4 E5]]]].
+  destruct Sc as [E1 [E2 [E3 [E4 [E5 [E6 E7]]]]]].
   assert (Hc : completed (snd (step ca c)) = true).
   { unfold resumed in R. unfold completed. destruct (o_out (snd (step ca c))); try discriminate. reflexivity. }
   assert (Ng' : negotiate (c_srv c) (c_spec c) = Some v) by (rewrite E1, E3; exact Ng).
@@ -722,7 +723,7 @@ Proof.
   destruct (step_stores_good ca c v Hc Ng' Hm' Ht') as [s' [L' [G' _]]].
   destruct (step_resumed_expiry ca c v k s R O Ng' Hm' Ht') as [s'' [L'' [X1 [X2 X3]]]].
   rewrite L' in L''. inversion L''; subst s''. clear L''.
-  rewrite E1, E2, E3, E4, E5 in G'. rewrite E2 in L'.
+  rewrite E1, E3, E4, E5, E6 in G'. rewrite E2 in L'.
   exists s'. split; [exact L'|]. split; [exact G'|]. unfold unexpired. rewrite X1, X2.
   split; [exact U1|]. split; [exact T2|]. destruct X3 as [-> | ->]; [exact U3|exact T2].
 Qed.
